@@ -55,7 +55,7 @@ def oracle(prior, u, v):
 
 def run(tier, seed, replay=None):
     res = C.Result(PID, tier, seed)
-    pr = C.proof_step(res, PID, ["Proofs/UnifyProofs.vo", "Proofs/AcycState.vo"])
+    pr = C.proof_step(res, PID, ["Proofs/UnifyProofs.vo", "Proofs/AcycState.vo", "Proofs/ScopeReify.vo"])
     rnd = random.Random(seed)
     atoms = [1, 2, "#t", "nil"] + VARS
     ts = terms_upto(3 if tier == "quick" else 4, atoms)
